@@ -66,15 +66,16 @@ def pointer_root(v):
         return None, off
 
 
-def gen_case(rng):
-    fam = rng.choice(["alu", "alu", "gemm", "gemm", "gemm"])
+def gen_case(rng, plain=False, fam=None):
+    """plain: default (row-major) layouts on every operand and no set-memory-layout"""
+    fam = fam or rng.choice(["alu", "alu", "gemm", "gemm", "gemm"])
     if fam == "alu":
         n = rng.choice([4, 8, 16, 32, 64])
-        rank2 = rng.random() < 0.3
+        rank2 = rng.random() < (0.8 if plain else 0.3)
         shape = [rng.choice([2, 4]), n] if rank2 else [n]
         def lay():
             r = rng.random()
-            if r < 0.5:
+            if r < 0.5 or plain:
                 return ""
             if r < 0.7:
                 st = rowmajor(shape)
@@ -101,7 +102,7 @@ func.func public @f(%a : {ts[0]}, %b : {ts[1]}, %c : {ts[2]}) {{
 }}
 }}
 """
-        return text, "snax_alu", rng.random() < 0.3
+        return text, "snax_alu", rng.random() < 0.3 and not plain
     M, N, K = (rng.choice([8, 16, 24, 32]) for _ in range(3))
     while M * N * K > 8 * 8 * 8 * 36:
         M, N, K = (rng.choice([8, 16, 24]) for _ in range(3))
@@ -132,7 +133,12 @@ func.func public @f(%a : {ts[0]}, %b : {ts[1]}, %c : {ts[2]}) {{
             return f", #tsl.tsl<[{a // 2}, 2, 8] -> ({128 * b}, {64 * b}, 8), [{b}, 8] -> (64, 1){off}>"
         return f", strided<[1, {shape[0]}], offset: 0>"
     lays = [lay(shapes[0], 1), lay(shapes[1], 1, True), lay(shapes[2], 4)]
-    if rng.random() < 0.3:
+    if plain:
+        # what the streamers can express without a chosen layout: A row-major, B column-major, C row-major with 8 columns
+        N = 8
+        shapes = [[M, K], [K, N], [M, N]]
+        lays = ["", f", strided<[1, {K}]>", ""]
+    elif rng.random() < 0.3:
         lays = ["", "", ""]
     ts = [f"memref<{M}x{K}xi8{lays[0]}>", f"memref<{K}x{N}xi8{lays[1]}>", f"memref<{M}x{N}xi32{lays[2]}>"]
     text = f"""builtin.module {{
@@ -150,7 +156,7 @@ func.func public @f(%a : {ts[0]}, %b : {ts[1]}, %c : {ts[2]}) {{
 }}
 }}
 """
-    return text, "snax_gemmx", (all(l == "" for l in lays) and rng.random() < 0.6)
+    return text, "snax_gemmx", (all(l == "" for l in lays) and rng.random() < 0.6 and not plain)
 
 
 REFUSALS = (NotImplementedError, RuntimeError, StopIteration)
@@ -168,14 +174,13 @@ def build_cases(text, acc, setlayout, name, rep):
     except REFUSALS as e:
         rep.refused += 1
         return []
-    sch = [o for o in m.walk() if isinstance(o, dart.ScheduleOp)][0]
-    bounds = [b.value.data for b in sch.bounds.data]
-    pats = [AffineTransform.from_affine_map(p.data) for p in sch.patterns.data]
-    types = [o.type for o in sch.operands]
-    operands = list(sch.operands)
+    schs = [o for o in m.walk() if isinstance(o, dart.ScheduleOp)]
     accel = ctx.get_acc(acc)
-    tmpl = accel.get_template(sch)
-    T = tmpl.num_dims
+    info = []
+    for sch in schs:
+        tmpl = accel.get_template(sch)
+        info.append(([b.value.data for b in sch.bounds.data], [AffineTransform.from_affine_map(p.data) for p in sch.patterns.data],
+                     [o.type for o in sch.operands], list(sch.operands), tmpl, tmpl.num_dims))
     try:
         repo.run_pipeline(m, "dart-layout-resolution,convert-dart-to-snax-stream")
     except REFUSALS as e:
@@ -184,7 +189,17 @@ def build_cases(text, acc, setlayout, name, rep):
         k = f"{type(e).__name__}: {str(e)[:60]}"
         rep.extra["refusal_reasons"][k] = rep.extra["refusal_reasons"].get(k, 0) + 1
         return []
-    sr = [o for o in m.walk() if isinstance(o, snax_stream.StreamingRegionOp)][0]
+    srs = [o for o in m.walk() if isinstance(o, snax_stream.StreamingRegionOp)]
+    if len(srs) != len(schs):
+        rep.refused += 1      # some operation of the module was not lowered (declared: left as it is)
+        return []
+    cases = []
+    for opk, (sr, (bounds, pats, types, operands, tmpl, T)) in enumerate(zip(srs, info)):
+        cases += cases_of_region(sr, bounds, pats, types, operands, tmpl, T, accel, f"{name}@op{opk}" if len(srs) > 1 else name, text, rep)
+    return cases
+
+
+def cases_of_region(sr, bounds, pats, types, operands, tmpl, T, accel, name, text, rep):
     ptrs = list(sr.inputs) + list(sr.outputs)
     sps = sr.stride_patterns.data
     streamers = accel.streamer_config.data.streamers
@@ -230,9 +245,24 @@ def run(pid: str, tier: str, seed: int, selftest=False, replay=None) -> int:
         txt = open(p).read()
         acc = "snax_gemmx" if "snax_gemmx" in txt else "snax_alu"
         sources.append((f"witness:{pid}/{os.path.basename(p)}", txt, acc, False))
+    prev = {}
     for k in range(n):
         text, acc, setlayout = gen_case(rng)
         sources.append((f"gen:{seed}:{k}", text, acc, setlayout))
+        # modules with two operations (one pass run sees both): this one and the previous one of the same accelerator
+        if acc in prev and k % 4 == 0:
+            ptext, psl = prev[acc]
+            body2 = text[text.index("func.func"):text.rindex("}")].replace("@f(", "@g(")
+            both = ptext[:ptext.rindex("}")] + body2 + "}\n"
+            sources.append((f"gen:{seed}:{k}+prev", both, acc, setlayout and psl))
+        prev[acc] = (text, setlayout)
+        if k % 8 == 1:
+            # two operations with default layouts, same patterns and element types, different shapes
+            fam = rng.choice(["alu", "gemm"])
+            t1, acc1, _ = gen_case(rng, plain=True, fam=fam)
+            t2, _, _ = gen_case(rng, plain=True, fam=fam)
+            body2 = t2[t2.index("func.func"):t2.rindex("}")].replace("@f(", "@g(")
+            sources.append((f"gen:{seed}:{k}:plainpair", t1[:t1.rindex("}")] + body2 + "}\n", acc1, False))
     for name, text, acc, setlayout in sources:
         try:
             cases += build_cases(text, acc, setlayout, name, rep)
